@@ -108,6 +108,61 @@ def aopen (E : Bytes → Bytes) (o : Obj) (nonce ciphertext data : Bytes) : Exce
       let (_, pt) ← Modes.Model.ctrEncrypt E { counter := counterBlock nonce 2, counterBytes := 0 } ciphertext
       pure (some pt)
 
+/-! ### the object with its shared CTR sub-object, over a history of calls
+    `self._ctr` is created once in `__init__`; every `seal`/`open` ASSIGNS a freshly allocated
+    counter block to it and lets it run, so whatever position an earlier call left in it is dead. -/
+
+structure ObjS where
+  productTable : List Nat
+  ctr : Modes.Model.Ctr          -- `self._ctr` (its `_counter`, `_counter_bytes`), carried between calls
+
+/-- `__init__`: `self._ctr = python_aes.new(key, 6, bytearray(16))` -/
+def newS (E : Bytes → Bytes) : Except Err ObjS := do
+  let o ← new E
+  let c ← Modes.Model.ctrInit (zeros 16)
+  pure { productTable := o.productTable, ctr := c }
+
+/-- `seal` on the object: `self._ctr.counter = counter; self._ctr.encrypt(plaintext)` -/
+def asealS (E : Bytes → Bytes) (o : ObjS) (nonce plaintext data : Bytes) : Except Err (ObjS × Bytes) :=
+  if nonce.length ≠ 12 then .error .value else do
+    let tagMask := E (counterBlock nonce 1)
+    let (c, ciphertext) ← Modes.Model.ctrEncrypt E { o.ctr with counter := counterBlock nonce 2 } plaintext
+    let tag ← auth o.productTable ciphertext data tagMask
+    pure ({ o with ctr := c }, ciphertext ++ tag)
+
+/-- `open` on the object -/
+def aopenS (E : Bytes → Bytes) (o : ObjS) (nonce ciphertext data : Bytes) : Except Err (ObjS × Option Bytes) :=
+  if nonce.length ≠ 12 then .error .value
+  else if ciphertext.length < 16 then .ok (o, none)
+  else do
+    let tag := ciphertext.drop (ciphertext.length - 16)
+    let ciphertext := ciphertext.take (ciphertext.length - 16)
+    let tagMask := E (counterBlock nonce 1)
+    let expect ← auth o.productTable ciphertext data tagMask
+    if tag ≠ expect then pure (o, none)
+    else do
+      let (c, pt) ← Modes.Model.ctrEncrypt E { o.ctr with counter := counterBlock nonce 2 } ciphertext
+      pure ({ o with ctr := c }, some pt)
+
+/-- one call of a history -/
+structure Call where
+  isSeal : Bool
+  nonce : Bytes
+  data : Bytes
+  aad : Bytes
+
+def callS (E : Bytes → Bytes) (o : ObjS) (c : Call) : Except Err (ObjS × Option Bytes) :=
+  if c.isSeal then (asealS E o c.nonce c.data c.aad).map fun r => (r.1, some r.2)
+  else aopenS E o c.nonce c.data c.aad
+
+/-- a history of calls on one object: the list of results -/
+def runCalls (E : Bytes → Bytes) : ObjS → List Call → Except Err (ObjS × List (Option Bytes))
+  | o, [] => .ok (o, [])
+  | o, c :: cs => do
+    let (o, r) ← callS E o c
+    let (o, rs) ← runCalls E o cs
+    pure (o, r :: rs)
+
 end Model
 
 /-! ## NIST SP 800-38D -/
